@@ -4,6 +4,7 @@ import (
 	"encoding/json"
 	"fmt"
 	"math/rand"
+	"reflect"
 	"strings"
 
 	"verif/core"
@@ -159,6 +160,7 @@ func runC03(r *core.Run) {
 		}
 	}
 	validateTraces(r, "Trace_Exif", "Trace_Exif.cfg", "exif2.ifdReader", ops, obs, ts.lines, ts.owner)
+	runExifAlign(r)
 	r.Extra["entry_points"] = []string{"imagemeta.Decode", "imagemeta.DecodeTiff", "exif2.Parse", "tiff.ScanTiffHeader+ifdReader.DecodeTiff", "imagemeta.DecodeJPEG", "ifdReader.DecodeIfd"}
 	r.Assumptions = append(r.Assumptions,
 		"forward layouts only (the property's domain); values are in the ranges the reported types can hold; strings are printable without trailing blanks",
@@ -238,4 +240,78 @@ func exifStart(c *gen.ExifCase, bind map[int]*gen.Bound) map[string]interface{} 
 		}
 	}
 	return map[string]interface{}{"e": "start", "dirs": dirs, "variant": c.Variant, "ifd0at": c.Ifd0At, "len": c.Len, "ats": ats, "skip": skip}
+}
+
+// runExifAlign makes the specification's IFD0-offset dimension concrete over its whole range: the SAME
+// all-tags record (every directory, every encoding class) is written with IFD0 at 8 .. 4200, so that every
+// directory, entry block and value straddles the reader's 4 KiB look-ahead window at some offset, followed
+// by image data. The reported record must be the one reported at offset 8, through every entry point.
+func runExifAlign(r *core.Run) {
+	var ops []core.Op
+	type ak struct {
+		bo, entry string
+		shift     int
+	}
+	var keys []ak
+	step := 1
+	if r.Tier != "thorough" {
+		step = 3
+	}
+	for bi, bo := range []string{"LE", "BE"} {
+		for ei, entry := range []string{"DecodeTiff", "Parse", "Decode", "DecodeJPEG"} {
+			for shift := 8; shift <= 4200; shift++ {
+				if shift != 8 && (shift+ei+bi)%step != 0 {
+					continue
+				}
+				data := gen.BuildFullTIFFAt(rand.New(rand.NewSource(r.Seed)), bo, shift)
+				if entry == "DecodeJPEG" {
+					data = gen.WrapJPEG(data, rand.New(rand.NewSource(r.Seed)), 0)
+				} else {
+					for k := 0; k < 6000; k++ {
+						data = append(data, byte(0xA0+k%7))
+					}
+				}
+				ops = append(ops, core.Op{ID: len(ops), Kind: "call", Data: data, Cut: -1, Args: callArgsJSON(entry)})
+				keys = append(keys, ak{bo, entry, shift})
+			}
+		}
+	}
+	obs, err := core.RunOps(ops, core.WorkerOpts{})
+	if err != nil {
+		r.Machinery("worker: %v", err)
+		return
+	}
+	var base map[string]interface{}
+	for i := range obs {
+		o, op, k := &obs[i], &ops[i], keys[i]
+		desc := map[string]interface{}{"input": fmt.Sprintf("all-tags record (%s), IFD0 at %d", k.bo, k.shift), "entry": k.entry}
+		if o.Bad() {
+			r.Violate("exif:align:"+o.BadKind()+"@"+o.Site, fmt.Sprintf("%s %s on the all-tags record with IFD0 at %d: %s%s%s", k.entry, o.BadKind(), k.shift, o.Panic, o.Crash, o.Stall), replayOf(op, o, desc))
+			continue
+		}
+		r.Cases++
+		var got struct {
+			F map[string]interface{} `json:"f"`
+		}
+		json.Unmarshal(o.R, &got)
+		if k.shift == 8 {
+			if o.Err != "" || len(got.F) == 0 {
+				r.Machinery("alignment sweep: %s fails on the all-tags record at offset 8: %s", k.entry, o.Err)
+				return
+			}
+			base = got.F
+			continue
+		}
+		if o.Err != "" {
+			r.Violate("exif:align:error:"+k.entry, fmt.Sprintf("%s (%s): error %s on the all-tags record with IFD0 at %d (none with IFD0 at 8)", k.entry, k.bo, o.Err, k.shift), replayOf(op, o, desc))
+			continue
+		}
+		for f, want := range base {
+			if !reflect.DeepEqual(got.F[f], want) {
+				r.Violate("exif:align:field:"+f+":"+k.entry, fmt.Sprintf("%s (%s): field %s = %v with IFD0 at %d, %v with IFD0 at 8 (same encoded record)", k.entry, k.bo, f, got.F[f], k.shift, want), replayOf(op, o, desc))
+				break
+			}
+		}
+	}
+	r.Extra["alignment_sweep_ops"] = len(ops)
 }
